@@ -360,11 +360,15 @@ class CallMixin:
 
   def view_to_array(self, view, node):
     """(array const, defining fact): a first-order array with the view's elements."""
+    if getattr(view, 'params_of', None) is not None:
+      # the row of list(signature.parameters.values()): a named array (axiom PARAM_ROW_AXIOM)
+      return param_row(view.params_of), z3.BoolVal(True)
     i = z3.Int('va_i')
     body = view.elt(i)
     if not z3.is_expr(body):
       self.unsupp('materialising a view of tuples', node)
-    return z3.Lambda([i], body), z3.BoolVal(True)
+    arr = fresh('view', ValArr)
+    return arr, z3.ForAll([i], arr[i] == body, patterns=[arr[i]])
 
   def bi_list(self, pos, kw, st, node, clsname='list'):
     if not pos:
@@ -446,6 +450,9 @@ class CallMixin:
       start = ival(pos[1])
     v = SeqView(view.length, lambda i: TupleImm([VInt(i + start), view.elt(i)]), src=view.src)
     v.src_arrays = getattr(view, 'src_arrays', None)
+    if getattr(view, 'live', False):
+      v.live = 'enumerate'
+      v.start = start
     return [Res(st, v)]
 
   def bi_zip(self, pos, kw, st, node):
@@ -651,7 +658,9 @@ class CallMixin:
   def parammap_method(self, pm, name, pos, st, node):
     g = pm.g
     if name == 'values':
-      return [Res(st, SeqView(sig_n(g), lambda i: VParam(g, i)))]
+      v = SeqView(sig_n(g), lambda i: VParam(g, i))
+      v.params_of = g
+      return [Res(st, v)]
     if name == 'keys':
       return [Res(st, SeqView(sig_n(g), lambda i: VStr(sig_name(g, i))))]
     if name == 'items':
@@ -801,8 +810,10 @@ class CallMixin:
       oc = h.cls(ref(other))
       if self.feasible_full(s, z3.Not(z3.And(is_VRef(other), z3.Or([cls_in(oc, n) for n in DICTLIKE])))):
         self.unsupp('set.update with a non-set argument', node)
-      new = z3.Lambda([k], z3.Or(h.hasarr(r)[k], h.hasarr(ref(other))[k]))
-      return [Res(s.with_heap(h.set('dhas', z3.Store(h.get('dhas'), r, new))), VNone)]
+      new = fresh('union', HasArr)
+      fact = z3.ForAll([k], new[k] == z3.Or(h.hasarr(r)[k], h.hasarr(ref(other))[k]),
+                       patterns=[new[k]])
+      return [Res(s.with_heap(h.set('dhas', z3.Store(h.get('dhas'), r, new))).assume(fact), VNone)]
     def go_dict(s):
       r = ref(recv)
       h = s.heap
@@ -810,11 +821,14 @@ class CallMixin:
       ro = ref(other)
       if self.feasible_full(s, z3.Not(z3.And(is_VRef(other), cls_in(h.cls(ro), 'dict')))):
         self.unsupp('dict.update with a non-dict argument', node)
-      nh = z3.Lambda([k], z3.Or(h.hasarr(r)[k], h.hasarr(ro)[k]))
-      nv = z3.Lambda([k], z3.If(h.hasarr(ro)[k], h.valarr(ro)[k], h.valarr(r)[k]))
+      nh = fresh('upd_has', HasArr)
+      nv = fresh('upd_val', ValMap)
+      facts = [z3.ForAll([k], nh[k] == z3.Or(h.hasarr(r)[k], h.hasarr(ro)[k]), patterns=[nh[k]]),
+               z3.ForAll([k], nv[k] == z3.If(h.hasarr(ro)[k], h.valarr(ro)[k], h.valarr(r)[k]),
+                         patterns=[nv[k]])]
       h = h.set('dhas', z3.Store(h.get('dhas'), r, nh))
       h = h.set('dval', z3.Store(h.get('dval'), r, nv))
-      return [Res(s.with_heap(h), VNone)]
+      return [Res(s.with_heap(h).assume(*facts), VNone)]
     return self.class_fork(recv, st, [(('set',), go_set), (('dict',), go_dict)], node, '.update()')
 
   def me_keys(self, recv, pos, kw, st, node):
@@ -891,6 +905,14 @@ def _ancestors(name):
 
 # ---------------------------------------------------------------------------
 # uninterpreted helpers
+param_row = z3.Function('param_row', I, ValArr)
+
+
+def param_row_axiom():
+  g, i = z3.Ints('pr_g pr_i')
+  return z3.ForAll([g, i], param_row(g)[i] == VParam(g, i), patterns=[param_row(g)[i]])
+
+
 is_type_obj = z3.Function('is_type_obj', I, B)
 is_callable_obj = z3.Function('is_callable_obj', I, B)
 id_of_val = z3.Function('id_of_val', Val, I)
